@@ -178,12 +178,13 @@ structure FState where
   skipKey : Option Bytes := none
   numVersions : Nat := 0
 
-/-- `hasAnyPrefixes(it.Key(), cd.dropPrefixes)` — on the *encoded* key, as in the code. -/
-def hasAnyPrefix (ik : Bytes) (ps : List Bytes) : Bool := ps.any (fun p => p.isPrefixOf ik)
+/-- `hasAnyPrefixes(y.ParseKey(it.Key()), cd.dropPrefixes)` — on the user key (since the fix of
+    finding F14; before it the test ran on the encoded key including the version bytes). -/
+def hasAnyPrefix (k : Bytes) (ps : List Bytes) : Bool := ps.any (fun p => p.isPrefixOf k)
 
 /-- one iteration of the `addKeys` loop: new state, and whether the entry is written. -/
 def filtStep (p : CParams) (st : FState) (e : Ent) : FState × Bool :=
-  if hasAnyPrefix e.ikey p.dropPrefixes then (st, false) else
+  if hasAnyPrefix e.key p.dropPrefixes then (st, false) else
   let skipping := st.skipKey == some e.key
   if skipping then (st, false) else
   let st1 : FState := { st with skipKey := none }
@@ -287,7 +288,7 @@ def compactOutput (s : Lsm) (cd : CompactDef) (discardTs numKeep now : Nat) : Li
   -- keepTable: bottom tables entirely inside a dropped prefix are not even iterated
   let validBots := bots.filter (fun t =>
     !(cd.dropPrefixes.any (fun p => match t.smallest, t.biggest with
-      | some a, some b => p.isPrefixOf a.ikey && p.isPrefixOf b.ikey
+      | some a, some b => p.isPrefixOf a.key && p.isPrefixOf b.key
       | _, _ => false)))
   let topSrcs := if cd.thisLevel == 0 then tops.reverse.map (·.ents) else tops.map (·.ents)
   let merged := mergeAll (topSrcs ++ [(validBots.map (·.ents)).flatten])
